@@ -629,9 +629,9 @@ class Nest(MultiCrossBlockRepeat):
         argcheck(who, inner_block, MultiCrossBlockRepeat, "Block")
         argcheck(who, constraints, make_islistof(Constraint), "list of Constraints")
 
-        for c in outer_block.crossings:
+        for c in outer_block.orig_crossings:
             for f in c:
-                for ic in inner_block.crossings:
+                for ic in inner_block.orig_crossings:
                     if f in ic:
                         raise ValueError("Factor cannot be in crossing for both outer and inner blocks.")
 
@@ -647,11 +647,12 @@ class Nest(MultiCrossBlockRepeat):
                 pass
             else:
                 raise ValueError("Outer and inner blocks cannot have different alignment.")
-        design = outer_block.design + []
-        for f in inner_block.design:
+        # As for Merge, combine the designs and crossings as declared
+        design = outer_block.orig_design + []
+        for f in inner_block.orig_design:
             if f not in design:
                 design.append(f)
-        crossings = outer_block.crossings + inner_block.crossings
+        crossings = outer_block.orig_crossings + inner_block.orig_crossings
         inner_len = inner_block.trials_per_sample() - inner_block.common_preamble_size()
         outer_sustain_counts = [inner_len * sc for sc in outer_block.crossing_sustain_counts]
         crossing_sustain_counts = outer_sustain_counts + inner_block.crossing_sustain_counts
@@ -703,10 +704,13 @@ class Merge(MultiCrossBlock):
         crossing_weights = []
         constraints = constraints + []
         for b in blocks:
-            for f in b.design:
+            # Use each block's design and crossings as declared: the merged block
+            # desugars weights itself, and the blocks' constraints refer to the
+            # declared factors
+            for f in b.orig_design:
                 if f not in design:
                     design.append(f)
-            for c in b.crossings:
+            for c in b.orig_crossings:
                 crossings.append(c)
             for count in b.crossing_sustain_counts:
                 crossing_sustain_counts.append(count)
